@@ -66,8 +66,9 @@ def reserved_atoms(t):
                 visit(a)
         elif isinstance(x, tuple):
             s = show(x)
-            if tag(x) in ("field", "upvar", "param") and "reserved" in s and len(s) < 40:
+            if tag(x) in ("field", "upvar", "param") and "reserved" in s and (len(s) < 40 or (tag(x) == "field" and x[2] == "reserved")):
                 out.add(x)
+                return
             for y in x[1:]:
                 if isinstance(y, (tuple, Lin)):
                     visit(y)
@@ -156,6 +157,13 @@ def l3(ctx):
         if ok and name != "alloc":
             me = [e for e in res.log if e["kind"] == "call" and re.search(r"Result::<.*>::map_err$", e["callee"]) and e["args"][0] == cc[0]["result"]]
             ok = len(me) == 1 and "invalid_input" in show(me[0]["args"][1])
+        if not ok and not cc:
+            # the comparison made directly (a helper that takes the precomputed layout): every write and the Memory aggregate lie behind `prefix <= capacity`
+            ev2, res2 = ctx.eval(b, no_inline=(r"::mlock$",))
+            ws2 = [e for e in res2.log if is_raw_write(e) or (e["kind"] == "store" and e.get("how") == "store" and tag(e["base"]) != "param")] + memory_aggregates(res2)
+            ok = bool(ws2) and all(prefix_fits_fact(set(canon(f) for f in ctx.facts_of(ev2, w))) for w in ws2)
+            if ok and name != "alloc":
+                ok = any(e["kind"] == "call" and re.search(r"Result::<.*>::map_err$", e["callee"]) and "invalid_input" in show(e["args"][1]) for e in res2.log)
         yield Ob(key_of("C16-L3", b.path, "check-first"), ok, "%s: check_capacity precedes every write%s" % (name, "" if name == "alloc" else " and is mapped with invalid_input"), b.loc())
 
 
